@@ -64,6 +64,8 @@ func c08(r *Report, s *Sem) {
 	R5 := r.Rule("R5", "credentials are put into an envelope only by a function that requires the channel state 'authenticating', called only on the edge where the latest reply's State == authenticating", 2)
 	R6 := r.Rule("R6", "the read wrapper closes the transport on every path on which the reply's state is finished or failed, and on a rejected regression", 3)
 
+	R8 := r.Rule("R8", "no use of a transport the read wrapper may have closed: in the client's establishment (a) the transport is upgraded only under the fact that the reply supplying the option is in state negotiating — a finished/failed/regressing reply has already closed the connection, and SetEncryption on a closed TCP transport dereferences nil — and (b) on the error edge of a handshake read nothing is invoked on the transport except Close/Connected (RemoteAddr on a closed WebSocket transport dereferences nil)", 3)
+	defer checkNoUseOfClosedTransport(r, s, R8)
 	est := p.Method("ClientChannel", "EstablishSession")
 	build := p.Method("Client", "buildChannel")
 	wrapper := clientReadWrapper(s)
@@ -515,4 +517,88 @@ func retIsError(ret *ssa.Return) bool {
 		return false
 	}
 	return !retMayBeNil(ret)
+}
+
+// checkNoUseOfClosedTransport: C08.R8.
+func checkNoUseOfClosedTransport(r *Report, s *Sem, R string) {
+	p := r.P
+	est := p.Method("ClientChannel", "EstablishSession")
+	wrapper := clientReadWrapper(s)
+	if est == nil || wrapper == nil {
+		r.Undecided(R, "anchor-unresolved:client establishment / read wrapper", "-", "not found")
+		return
+	}
+	// (a) upgrades under state == negotiating of the reply that supplies the value
+	for _, set := range []string{"SetCompression", "SetEncryption"} {
+		found := false
+		eachInstr(est, func(in ssa.Instruction) {
+			c, ok := in.(*ssa.Call)
+			if !ok || !s.isTransportCall(c, set) {
+				return
+			}
+			found = true
+			arg := c.Call.Args[len(c.Call.Args)-1]
+			root := pathOf(arg).Root
+			guard := condGuard(c.Block(), func(cd Cond) bool {
+				if cd.Op != token.EQL {
+					return false
+				}
+				x, y := cd.X, cd.Y
+				if _, isC := stripConv(x).(*ssa.Const); isC {
+					x, y = y, x
+				}
+				cs, ok := constString(stripConv(y))
+				if !ok || cs != "negotiating" {
+					return false
+				}
+				ap := pathOf(x)
+				return ap.Last() != nil && ap.Last().Name() == "State" && ap.Root == root
+			})
+			r.Check(R, "func "+fnName(est)+" / "+set+" only for a reply in state negotiating", p.instrPos(c), guard, "the option comes from "+describe(root)+"; without the state test a terminal reply (whose handling closed the transport) still triggers the upgrade")
+		})
+		if !found {
+			r.Undecided(R, "func "+fnName(est)+" / "+set, p.pos(est.Pos()), "no call found")
+		}
+	}
+	// (b) on the error edge of a read (a call that reaches the wrapper) only Close/Connected on the transport
+	n := 0
+	reachW := func(g *ssa.Function) bool { return g == wrapper || p.reachable(g)[wrapper] }
+	eachInstr(est, func(in ssa.Instruction) {
+		c, ok := in.(*ssa.Call)
+		if !ok {
+			return
+		}
+		g := c.Call.StaticCallee()
+		if g == nil || !reachW(g) {
+			return
+		}
+		n++
+		bad := ""
+		walkFrom(est, c, walkOpts{
+			cutEdge: func(from *ssa.BasicBlock, k int) bool {
+				ifi := ifOf(from)
+				if ifi == nil {
+					return false
+				}
+				isNil, ok := errTestOf(ifi, k == 0, c)
+				return ok && isNil // stay on the error edge
+			},
+			barrier: func(x ssa.Instruction) bool {
+				cc, ok := x.(ssa.CallInstruction)
+				if !ok {
+					return false
+				}
+				if g2 := staticCallee(cc); g2 != nil && reachW(g2) {
+					return true // the next read starts a new obligation
+				}
+				if inv := invokeOn(cc, s.transportT); inv != "" && inv != "Close" && inv != "Connected" {
+					bad = inv + " at " + p.instrPos(x)
+				}
+				return false
+			}})
+		r.Check(R, "func "+fnName(est)+" / after a failed read of "+fnName(g)+" the transport is only closed", p.instrPos(c), bad == "", "Transport."+bad+" is invoked on the error path: the read wrapper may already have closed the connection")
+	})
+	if n == 0 {
+		r.Undecided(R, "func "+fnName(est)+" / handshake reads", p.pos(est.Pos()), "no call that reaches the read wrapper")
+	}
 }
